@@ -69,6 +69,11 @@ CHECKS={
    text='Every multi-event command instance (claim x3, all 26 multi-field subsets of set{title,body,epic,claim,state} + flag / --agent variants, prune, plan x2, compact, 6 composite commands, 2 single-event controls) x 3 pre-states: the production binary is killed on entry to EVERY store-mutating system call (reference strace run locates them; each injected run is verified from its own trace). Oracle: the normalised observable state after the kill is exactly the state before the command or exactly the state after an uninterrupted run. Composite commands (several lock sections) are known findings K1-K3 matched by call site.',
    note='Points between two non-mutating system calls leave the same files as the next mutating boundary. Process death only.',
    technique='fault enumeration: SIGKILL at every store-mutating syscall boundary of the production binary'),
+
+ 'C05': dict(engine='SEQ', level='model_checking', design='3/C05',
+   text='Explicit-state search with NO abstraction (state key = the whole normalised history): every history of depth <= 4 (thorough 5) over the alphabet (new epic/task in several input forms, plan, set title/body/claim/unclaim/state/epic/result, claim, claim <id>, sequence / rm on task and epic pairs, prune, compact) from a fresh store, and every single op from further roots (rich store, the repository\'s legacy sample project, synthetic legacy untitled items, each also with 3 torn tails). On every reached log s with c = compact(s): everything a reader sees is byte-identical (list --all/--epics/--ready, show of every id incl. timestamps, results, deps/rdeps, flags), the id sequence handed out by repeated claim is equal, pruned ids are gone from c, compact(c) changes nothing (modulo link-event ts), and for every op o of the alphabet o(s) and o(c) exit alike and end in the same observable state (commuting diagram, up to depth-1 below the bound).',
+   note='Scripted ids, real timestamps; same-log comparisons byte-exact, cross-run comparisons drop timestamps. Known finding K5 matched by (op, legacy-untitled item).',
+   technique='explicit-state BFS over real commands, differential oracle (with vs without compact)'),
 }
 NA_REASON='check not built yet (work in progress; design in DESIGN.md)'
 m={"version":1,
